@@ -20,8 +20,9 @@ import FordModel.NamesCfg
 import FordModel.Lemmas.Names
 import FordModel.Lemmas.NamesLegal
 import FordModel.Lemmas.NamesIdent
+import FordModel.Lemmas.SourceOf
 namespace Ford.C10
-open Ford Ford.Names Ford.Generated.C10
+open Ford Ford.Names Ford.Generated.C10 Ford.SourceOf
 
 /-- The finitely many facts about the *generated* symbol table, separator and
     unnamed-stem literal that the unbounded theorems below rest on: the separator
@@ -312,5 +313,76 @@ theorem src_copy_partial (files : List (Str × Str))
 theorem src_copy_witness :
     served [("a/util.f90".toList, "A".toList), ("b/util.f90".toList, "B".toList)] (srcLink "a/util.f90".toList)
       = some "B".toList := by decide
+
+/-! ### which file the 'Source File' link of an entity names (round 6)
+
+  `FortranBase._make_hierarchy` / `source_file` / `filename` (model: FordModel/SourceOf.lean).  The entity
+  tree is any list of (child, parent) pairs, of any size and depth; `fuel` is any bound on the climb. -/
+
+/-- Clause "the 'source file' link of an entity serves the file that defines it", first half: the
+    object `source_file` answers (`hierarchy[0]`, or the entity itself when the hierarchy is empty) is
+    the entity in which the `parent` chain of the entity ends - the `FortranSourceFile` whose text was
+    being read when the entity was created - for every tree, every depth, every entity.  (Code that puts
+    anything else in front of `hierarchy` - the ancestor module of a submodule, say - no longer
+    corresponds to `hierarchy`/`sourceFile`.) -/
+theorem source_file_is_defining_file (ps : Parents) (fuel e : Nat) :
+    sourceFile ps fuel e = rootOf ps fuel e :=
+  sourceFile_eq_root ps fuel e
+
+/-- A source file (an entity without parent) is its own `source_file`, with an empty hierarchy. -/
+theorem file_is_own_source (ps : Parents) (fuel f : Nat) (h : parentOf ps f = none) :
+    hierarchy ps fuel f = [] ∧ sourceFile ps fuel f = f := by
+  have hc : climb ps fuel f = [] := by
+    cases fuel with
+    | zero => rfl
+    | succ n => unfold climb; rw [h]
+  constructor
+  · unfold hierarchy; rw [hc]; rfl
+  · rw [sourceFile_eq_root, climb_nil_root ps fuel f hc]
+
+/-- Everything inside an entity is linked to the file the entity itself is linked to: a child's
+    `source_file` is its parent's (a procedure of a submodule that sits in a file of its own points to
+    that file, not to the file of the ancestor module). -/
+theorem children_share_source_file (ps : Parents) (fuel c p : Nat) (h : parentOf ps c = some p) :
+    sourceFile ps (fuel + 1) c = sourceFile ps fuel p := by
+  rw [sourceFile_eq_root, sourceFile_eq_root]
+  show (match parentOf ps c with | none => c | some p => rootOf ps fuel p) = rootOf ps fuel p
+  rw [h]
+
+/-- `hierarchy` lists exactly the ancestors, outermost first, nearest last: the hierarchy of a child
+    is the hierarchy of its parent followed by the parent. -/
+theorem hierarchy_extends_parent (ps : Parents) (fuel c p : Nat) (h : parentOf ps c = some p) :
+    hierarchy ps (fuel + 1) c = hierarchy ps fuel p ++ [p] := by
+  unfold hierarchy
+  show (match parentOf ps c with | none => [] | some p => p :: climb ps fuel p).reverse = _
+  rw [h]
+  simp
+
+/-- Clause "the 'source file' link of an entity serves the file that defines it", composed with the
+    flat `src/` copy: when the base names of the source files are pairwise different, the file served
+    under `src/{{ entity.filename }}` has the content of the file in which the entity's parent chain
+    ends - for every entity of every tree. -/
+theorem source_link_serves_definer_partial (ps : Parents) (fuel e : Nat) (paths : List (Nat × Str))
+    (files : List (Str × Str))
+    (hd : ∀ f ∈ files, ∀ g ∈ files, basename f.1 = basename g.1 → f = g)
+    (f : Str × Str) (hf : f ∈ files) (hp : assoc (rootOf ps fuel e) paths = some f.1) :
+    (filenameOf paths ps fuel e).bind (served files) = some f.2 := by
+  unfold filenameOf
+  rw [sourceFile_eq_root, hp]
+  exact src_copy_partial files hd f hf
+
+/-- ... and the excluded class (finding C10-src-basename) seen from an entity: a procedure (3) of a
+    module (2) of `a/util.f90` (1) is linked to `src/util.f90`, which holds the text of `b/util.f90`. -/
+theorem source_link_witness :
+    (filenameOf [(1, "a/util.f90".toList), (4, "b/util.f90".toList)] [(2, 1), (3, 2), (5, 4)] 9 3).bind
+      (served [("a/util.f90".toList, "A".toList), ("b/util.f90".toList, "B".toList)]) = some "B".toList := by
+  decide
+
+/-- non-vacuity: module 10 in file 1; submodule 20 of it in a file of its own (2) with procedure 21:
+    the hierarchy of 21 is [file 2, submodule 20] - the ancestor module is *not* in the parent chain -
+    and its link names `sub.f90` -/
+example : hierarchy [(10, 1), (20, 2), (21, 20)] 7 21 = [2, 20] ∧ sourceFile [(10, 1), (20, 2), (21, 20)] 7 21 = 2 ∧
+    filenameOf [(1, "src/geo.f90".toList), (2, "src/x/sub.f90".toList)] [(10, 1), (20, 2), (21, 20)] 7 21
+      = some "sub.f90".toList ∧ sourceFile [(10, 1), (20, 2), (21, 20)] 7 2 = 2 := by decide
 
 end Ford.C10
